@@ -9,6 +9,8 @@ structure St where
   max : Nat := 0
   disk : Disk := emptyDisk
   h : Option Handle := none
+  /-- highest file id ever used in this case (files are a function; this bounds what `disk` prints) -/
+  hi : Nat := 0
 
 def hexDigit (n : Nat) : Char :=
   if n < 10 then Char.ofNat (48 + n) else Char.ofNat (87 + n)
@@ -34,13 +36,9 @@ def unhexAux : List Char → Option Bytes
 def unhex (s : String) : Option Bytes :=
   if s = "-" then some [] else unhexAux s.toList
 
-/-- highest file id worth printing -/
-def maxFid (d : Disk) (h : Option Handle) : Nat :=
-  (d.idx.foldl (fun m e => max m e.fid) 0) + (match h with | some x => x.headId + 2 | none => 2)
-
-def diskLine (d : Disk) (h : Option Handle) : String :=
+def diskLine (d : Disk) (hi : Nat) : String :=
   let ents := d.idx.map fun e => s!"{e.fid}:{e.off}"
-  let files := (List.range (maxFid d h + 1)).filterMap fun i =>
+  let files := (List.range (hi + 2)).filterMap fun i =>
     let l := (d.files i).length
     if l > 0 then some s!"{i}:{l}" else none
   let es := if ents.isEmpty then "-" else ",".intercalate ents
@@ -68,7 +66,7 @@ def step (s : St) (ts : List String) : St × String :=
     match s.h, unhex hx with
     | some h, some data =>
       let (h', d') := append s.max h s.disk data
-      ({ s with disk := d', h := some h' }, "ok")
+      ({ s with disk := d', h := some h', hi := max s.hi h'.headId }, "ok")
     | _, _ => (s, "bad-op")
   | ["retrieve", i] =>
     match s.h, parseNat? i with
@@ -80,7 +78,7 @@ def step (s : St) (ts : List String) : St × String :=
       let (h', d') := truncate h s.disk i
       ({ s with disk := d', h := some h' }, "ok")
     | _, _ => (s, "bad-op")
-  | ["disk"] => (s, diskLine s.disk s.h)
+  | ["disk"] => (s, diskLine s.disk s.hi)
   | [op, il, fid, fl] =>
     if op = "cut" ∨ op = "cutopen" then
       match parseNat? il, parseNat? fid, (if fl = "rm" then some none else (parseNat? fl).map some) with
